@@ -196,12 +196,15 @@ func scenarioCodec(c *harness.Ctx) {
 
 func scenarioLengths(c *harness.Ctx) {
 	tp := c.T
-	lens := []int32{-0x80000000, -1, 0, 1, 9, 10, 11, 12, 4095, 4096, 4097, 5000, 0x7fffffff, 65536}
+	// the upper limit is the library's own exported constant (the statement says
+	// "above the limit"); the minimum of 10 is structural (id + type + two zeros)
+	const limit = int32(mcnet.MaxRCONPackageSize)
+	lens := []int32{-0x80000000, -1, 0, 1, 9, 10, 11, 12, limit - 1, limit, limit + 1, limit + 904, 0x7fffffff, 65536}
 	L := lens[tp.Choose(len(lens))]
 	if tp.Bool(1, 4) {
-		L = int32(tp.Choose(4200))
+		L = int32(tp.Choose(int(limit) + 104))
 	}
-	mustReject := L < 10 || L > 4096
+	mustReject := L < 10 || L > limit
 	if mustReject {
 		pLenReject.Hit()
 	} else {
@@ -258,15 +261,15 @@ func scenarioLengths(c *harness.Ctx) {
 	if mustReject {
 		if gerr == nil {
 			side := "below the minimum of 10"
-			if L > 4096 {
-				side = "above the limit of 4096"
+			if L > limit {
+				side = fmt.Sprintf("above the limit of %d", limit)
 			}
 			c.Fail("rcon.length", "read", "accepted-"+strings.Fields(side)[0], "frame with declared length %d (%s) was accepted: id=%d type=%d payload %d bytes", L, side, gid, gtyp, len(gp))
 		}
 		return
 	}
 	if gerr != nil {
-		c.Fail("rcon.length", "read", "rejected-valid", "frame with declared length %d (within 10..4096) was rejected: %v", L, gerr)
+		c.Fail("rcon.length", "read", "rejected-valid", "frame with declared length %d (within 10..%d) was rejected: %v", L, limit, gerr)
 		return
 	}
 	if gid != id || gtyp != typ || gp != string(pl) {
